@@ -362,6 +362,9 @@ func (s *State) toTerm(v Value) (Term, error) {
 		if x.Kind == pkGlobal {
 			return s.eng.globalRef(x.Glob), nil
 		}
+		if t, ok := s.eng.fieldAddrTerm(x); ok { // models_coord.go: opt-in opaque field addresses
+			return t, nil
+		}
 		return Term{}, fmt.Errorf("interior or stack pointer (kind %d) escapes into a term", x.Kind)
 	case *FuncRef:
 		return IntLit(int64(s.eng.funcID(x.Fn))), nil
